@@ -73,6 +73,9 @@ def install_rule(w, rule_name, rules, mixed_set, table, metadata):
                     "top:returns-only-if-attributes-valid": ca.accept_named(s0, node),
                     "top:returns-only-if-children-valid": ch.accept(s0, node)}
         d = {"top:empty-iff-failfast-succeeds": (s.len(errs) == s0.len(errs)) == acc(s0, node), "no-new-nodes": no_new_nodes(s0, s)}
+        # every problem is appended: each of the three validators contributes all of its errors
+        d["top:every-validator-reports"] = s.len(errs) >= s0.len(errs) + z3.If(cc.accept(s0, node, z3.BoolVal(mixed)), 0, 1) + ca.count(s0, node) + \
+            z3.If(ch.accept(s0, node), 0, 1)
         d.update(good_entries(s0, s, errs, lambda t: t == Val.ref(node)))
         return d
 
